@@ -103,6 +103,33 @@ theorem push_filter_into_derived (p w : Row → B3) (f : Row → Row) (t : Table
     select p (project f (select w t)) = project f (select (fun r => and3 (w r) (p (f r))) t) := by
   rw [select_project, select_select]
 
+/-- **per-window condition for moving a filter below a window**: a filter that only looks at the partition key of
+    THAT window keeps or drops whole partitions, so every surviving row sees the same partition — for every table,
+    aggregate and key.  (HEAD blocks the pushdown whenever the derived table has any window; this is the condition a
+    relaxation would have to check for EVERY window.) -/
+theorem window_commutes_with_filter_on_partition_key (key : Row → Val) (agg : Table → Val) (q : Val → Bool)
+    (t : Table) (r : Row) (hr : q (key r) = true) :
+    winPart key agg (t.filter (fun x => q (key x))) r = winPart key agg t r := by
+  unfold winPart
+  congr 1
+  rw [List.filter_filter]
+  apply List.filter_congr
+  intro x _
+  by_cases hk : key x = key r
+  · simp [hk, hr]
+  · simp [hk]
+
+/-- NECESSITY of "every window" (seeded regression C03-8 tested the UNION of all windows' partition keys): the filter
+    is on the partition key of window 1 (column 0); window 2 = COUNT(*) OVER () is unpartitioned (constant key) and
+    changes when the filter runs first -/
+theorem filter_below_other_window_unsound :
+    winPart (fun _ => .null) (fun p => .int p.length) ([[Val.int 1], [.int 2]].filter (fun x => col 0 x == .int 1)) [.int 1]
+      = .int 1 ∧
+    winPart (fun _ => .null) (fun p => .int p.length) [[Val.int 1], [.int 2]] [.int 1] = .int 2 := by decide
+
+/-- TABLE FACT (ast of nodes_for_predicate): a window in the derived table blocks the pushdown unconditionally -/
+theorem window_blocks_unconditionally : windowBlocksUnconditionally = true := by decide
+
 /-- what the SELECT-node guard of nodes_for_predicate promises, read off the atoms extracted on this run -/
 theorem push_guard_sound (s : SelShape) (h : canPushIntoSelect pushAtoms s = true) :
     s.group = false ∧ s.window = false ∧ s.limit = false ∧ s.offset = false ∧ s.qualify = false ∧ s.refCount < 2 := by
